@@ -69,8 +69,38 @@ func (fr *Frame) trustedCall(st *State, fn *ssa.Function, args []Val, resT types
 		g.note("trusted: bytes.Compare is the three-way byte-lexicographic order (uninterpreted total order str_cmp)")
 		return Val{T: intT, S: g.define("bcmp", g.S.sortOf(intT), mathToInt(g.strCompare(g.bytesAsStr(st, args[0]), g.bytesAsStr(st, args[1]))))}, true
 	case "fmt.Errorf", "errors.New":
-		g.note("trusted: " + name + " returns a non-nil error")
-		return g.nonNilError("err"), true
+		g.note("trusted: " + name + " returns a non-nil error; with a constant format, the result wraps the argument of every %w verb")
+		r := g.nonNilError("err")
+		if name == "fmt.Errorf" && len(args) >= 2 {
+			if lit, ok := g.litOf(args[0].S); ok {
+				if va, ok := fr.varargs[args[1].S]; ok {
+					ai := 0
+					for i := 0; i+1 < len(lit); i++ {
+						if lit[i] != '%' {
+							continue
+						}
+						j := i + 1
+						for j < len(lit) && strings.ContainsRune("+-# 0123456789.", rune(lit[j])) {
+							j++
+						}
+						if j >= len(lit) {
+							break
+						}
+						if lit[j] == '%' {
+							i = j
+							continue
+						}
+						if lit[j] == 'w' && ai < len(va) && isIface(va[ai].T) {
+							g.needWraps = true
+							g.assume("(err_wraps " + r.S + " " + va[ai].S + ")")
+						}
+						ai++
+						i = j
+					}
+				}
+			}
+		}
+		return r, true
 	case "fmt.Sprintf", "fmt.Sprint", "strconv.Itoa", "strconv.FormatInt", "strconv.FormatUint", "strconv.FormatFloat", "strconv.Quote", "strings.ToLower", "strings.Join", "strings.Repeat", "strings.Replace", "strings.ReplaceAll":
 		g.note("trusted: " + name + " returns some string (contents unconstrained)")
 		return g.havocVal("str", types.Typ[types.String]), true
@@ -241,6 +271,10 @@ func (g *Gen) trustedDecls() string {
 	var b strings.Builder
 	if g.needI2F {
 		b.WriteString("(declare-fun i2f64 (Int) (_ FloatingPoint 11 53))\n(declare-fun i2f32 (Int) (_ FloatingPoint 8 24))\n")
+	}
+	if g.needWraps {
+		b.WriteString("(declare-fun err_wraps (Iface Iface) Bool)\n(assert (forall ((e Iface)) (! (err_wraps e e) :pattern ((err_wraps e e)))))\n")
+		b.WriteString("(assert (forall ((a Iface) (b Iface) (c Iface)) (! (=> (and (err_wraps a b) (err_wraps b c)) (err_wraps a c)) :pattern ((err_wraps a b) (err_wraps b c)))))\n")
 	}
 	if g.needReMatch {
 		b.WriteString("(declare-fun re_match (Int Str) Bool)\n")
